@@ -247,6 +247,16 @@ def execute(ctx, case: dict) -> None:
                         ace.srcport.line = edit[1]
                     elif edit[0] in ("dstport", "srcport"):
                         continue
+                    elif edit[0] == "subswitch":
+                        # a numeric switch set on a sub-object only (the entry itself is not rebuilt)
+                        if edit[1] == "dstport" and ace.dstport.operator:
+                            ace.dstport.port_nr = not ace.dstport.port_nr
+                        elif edit[1] == "srcport" and ace.srcport.operator:
+                            ace.srcport.port_nr = not ace.srcport.port_nr
+                        elif edit[1] == "protocol":
+                            ace.protocol.protocol_nr = not ace.protocol.protocol_nr
+                        else:
+                            continue
                     elif edit[0] == "srcaddr":
                         ace.srcaddr.line = edit[1]
                     elif edit[0] == "option":
@@ -356,7 +366,8 @@ def gen_cases(ctx):
                     "group_members_alt": [["host 10.7.7.7"], ["10.8.0.0 0.0.0.3", "host 10.8.8.8"]]}
             if rng.random() < 0.5:
                 case["edits"] = [rng.choice([["dstport", "eq 7 8 9"], ["dstport", "eq 11"], ["srcport", "eq 5 6"], ["srcport", "range 3 9"],
-                                             ["srcaddr", "host 10.99.0.1"], ["option", ""], ["option", "log"], ["dstport", "neq 5"]])
+                                             ["srcaddr", "host 10.99.0.1"], ["option", ""], ["option", "log"], ["dstport", "neq 5"],
+                                             ["dstport", "eq 80"], ["subswitch", "dstport"], ["subswitch", "srcport"], ["subswitch", "protocol"]])
                                  for _ in range(rng.randint(1, 3))]
             yield case
             continue
